@@ -13,16 +13,22 @@ def is_c04(label):
     return any(k in label for k in C04_LABELS)
 
 
+def keep_c04(p):
+    return p.kind in ('cover', 'must-fail') or is_c04(p.label)
+
+
+def keep_c05(p):
+    return p.kind in ('cover', 'must-fail') or not is_c04(p.label)
+
+
 def run(ded, repo, tier, which):
     targets = [('AtomicSaver.setup', ['perms', 'noperms']), ('AtomicSaver.__enter__', ['perms', 'noperms']),
                ('AtomicSaver.__exit__', ['perms,ok', 'perms,exc'])]
-    for q, vs in targets:
-        for v in vs:
-            eng = m.make_engine(repo)
-            keep = (lambda p: p.kind in ('cover', 'must-fail') or is_c04(p.label)) if which == 'C04' else \
-                   (lambda p: p.kind in ('cover', 'must-fail') or not is_c04(p.label))
-            driver.discharge(ded, eng, q, clause_of={'*': 'crash_safety' if which == 'C04' else 'failure_cleanup'},
-                             tier=tier, variant=v, only=keep)
+    specs = [dict(module='contracts.atomic', repo=repo, q=q, variant=v, tier=tier,
+                  clause_of={'*': 'crash_safety' if which == 'C04' else 'failure_cleanup'},
+                  only='fn:deductive.C04:' + ('keep_c04' if which == 'C04' else 'keep_c05'))
+             for q, vs in targets for v in vs]
+    driver.run_parallel(ded, specs)
     src = front.load(repo, m.FILE)
     ok = m.flags_obligation(src)
     ded.add(Obligation('fileutils: part-file open flags contain O_CREAT|O_EXCL', 'module constants', 'exclusive_create',
